@@ -55,9 +55,39 @@ def check_retry(rep, rule, fn, blk, idx, call, site, need_remaining=False):
     name = call.get("callee")
     failval, channel = SPEC[name]
     errno_val = EINTR if channel == "errno" else 0   # 'return' channel: errno is not set by the call
-    stable = set(errno_keys())
+    res = run_scenario(fn, blk, idx, call, failval, errno_val, need_remaining=need_remaining)
+    escapes, retried, req_var, rem_var = res["escapes"], [res["retried"]], res["req_var"], res["rem_var"]
+    ok = not escapes and retried[0] > 0
+    if ok:
+        rep.ob(rule, fn, site, True,
+               "%s interrupted (%s = %s): every feasible path re-issues the call%s" %
+               (name, "errno" if channel == "errno" else "return value", "EINTR",
+                " with the remaining time" if need_remaining and req_var else ""), call)
+    else:
+        if escapes:
+            msg, ln, path = escapes[0]
+            chan = "errno == EINTR" if channel == "errno" else "the call returning EINTR (errno is not set by %s)" % name
+            rep.ob(rule, fn, site, False,
+                   "after %s is interrupted (%s) a path %s at line %d without re-issuing the call" % (name, chan, msg, ln)
+                   if "re-issues" not in msg else msg, call, [fn.where(call)] + (path or []))
+        else:
+            rep.ob(rule, fn, site, False, "%s is never re-issued after an interruption" % name, call)
+    return ok
+
+
+def run_scenario(fn, blk, idx, call, failval, errno_val, extra_facts=(), watch=(), need_remaining=False,
+                 excuse_other_calls=True, mark=None):
+    """Flow from the statement containing `call` in the scenario
+    call == failval, errno == errno_val (+ extra facts, which are re-asserted
+    as long as nothing assigns their key).  Returns escapes (paths reaching a
+    return without re-evaluating the call), the retry count and the watched
+    callees reached."""
+    name = call.get("callee")
+    stable = set(errno_keys()) | set(k for (k, op, v) in extra_facts if "(" in k)
     escapes = []
     retried = [0]
+    reached = {}
+    watch = set(watch)
     req_var = rem_var = None
     if name in SLEEPS:
         ra, rm = SLEEPS[name]
@@ -68,7 +98,7 @@ def check_retry(rep, rule, fn, blk, idx, call, site, need_remaining=False):
     def transfer(facts, stmt):
         # errno getters are stable in the scenario until the call is re-issued
         keep = frozenset(f for f in facts if f[0] in stable)
-        f2 = guards.transfer(facts, stmt)
+        f2 = guards.transfer(facts, stmt, stable=stable)
         return frozenset(f2 | keep)
 
     def on_stmt(st, b, i, stmt):
@@ -88,9 +118,15 @@ def check_retry(rep, rule, fn, blk, idx, call, site, need_remaining=False):
                 escapes.append(("re-issues %s without taking the remaining time from %s (the full interval is slept again, "
                                 "or an unrelated value)" % (name, rem_var), line(stmt), flow.witness_lines(*flow.cur)))
             return []
+        for c2 in calls(stmt):
+            if c2.get("callee") in watch:
+                reached.setdefault(c2.get("callee"), []).append((line(c2), flow.witness_lines(*flow.cur), started))
+        if mark is not None and mark(stmt, facts):
+            copied = True
         if stmt["k"] == "ret":
-            escapes.append(("returns %s" % show(stmt.get("e")) if stmt.get("e") is not None else "returns", line(stmt),
-                            flow.witness_lines(*flow.cur)))
+            if mark is None or not copied:
+                escapes.append(("returns %s" % show(stmt.get("e")) if stmt.get("e") is not None else "returns", line(stmt),
+                                flow.witness_lines(*flow.cur)))
             return []
         if need_remaining and req_var and rem_var:
             for n in walk(stmt):
@@ -108,7 +144,7 @@ def check_retry(rep, rule, fn, blk, idx, call, site, need_remaining=False):
         if f2 is None:
             return None
         c = b.cond
-        if c is not None and on in ("true", "false") and started is True:
+        if c is not None and on in ("true", "false") and started is True and excuse_other_calls:
             from .ir import atoms
             for (l, op, r) in atoms(c, on == "true"):
                 for n in walk(l):
@@ -120,6 +156,10 @@ def check_retry(rep, rule, fn, blk, idx, call, site, need_remaining=False):
     stmt = blk.stmts[idx]
     f0 = transfer(guards.EMPTY, stmt)
     f0 = scenario_facts(f0, call, failval, errno_val)
+    for (k, op, v) in extra_facts:
+        f0 = guards.add_fact(f0, k, op, v) if f0 is not None else None
+    if f0 is None:
+        return {"escapes": [], "retried": 0, "reached": {}, "req_var": None, "rem_var": None, "infeasible": True}
     flow = Flow(fn, [], on_stmt, on_edge)
     # run the rest of the block by hand, then the successors
     cur = [(f0, True, False)]
@@ -143,22 +183,7 @@ def check_retry(rep, rule, fn, blk, idx, call, site, need_remaining=False):
         flow.inn.setdefault(to, {})[s2] = None
     # custom run: seed worklist
     _run_from(flow, [(to, s2) for (to, s2) in starts])
-    ok = not escapes and retried[0] > 0
-    if ok:
-        rep.ob(rule, fn, site, True,
-               "%s interrupted (%s = %s): every feasible path re-issues the call%s" %
-               (name, "errno" if channel == "errno" else "return value", "EINTR",
-                " with the remaining time" if need_remaining and req_var else ""), call)
-    else:
-        if escapes:
-            msg, ln, path = escapes[0]
-            chan = "errno == EINTR" if channel == "errno" else "the call returning EINTR (errno is not set by %s)" % name
-            rep.ob(rule, fn, site, False,
-                   "after %s is interrupted (%s) a path %s at line %d without re-issuing the call" % (name, chan, msg, ln)
-                   if "re-issues" not in msg else msg, call, [fn.where(call)] + (path or []))
-        else:
-            rep.ob(rule, fn, site, False, "%s is never re-issued after an interruption" % name, call)
-    return ok
+    return {"escapes": escapes, "retried": retried[0], "reached": reached, "req_var": req_var, "rem_var": rem_var}
 
 
 def _run_from(flow, seeds):
